@@ -21,6 +21,8 @@ Step(op) == CASE op = "initialize" -> Initialize
               [] op = "notify" -> Notify
               [] op = "serverasks" -> ServerAsks
               [] op = "terminate" -> Terminate
+              [] op = "serverasksother" -> ServerAsksOther
+              [] op = "terminaterefused" -> TerminateRefused
               [] OTHER -> FALSE
 TOp == /\ IsEvent("op") /\ Step(Ev.op)
        /\ wire' = {Ev.reqs[i] : i \in 1..Len(Ev.reqs)} /\ Len(Ev.reqs) = Cardinality(wire')
